@@ -9,6 +9,14 @@
      <msg> = tagflag("0"|"1") :: dec ntags :: (key :: vflag("0"|"1") :: value){ntags}
              :: srckind("0" none|"1" server|"2" user) :: a :: b :: c      (server: a; user: nick user host)
              :: verb :: dec nmid :: (dec extra :: param){nmid} :: tflag("0"|"1") :: trailing
+     kind "cbig" (long lines over a connection): input = "cbig" :: rendered :: dec chunk :: serial :: <msg>
+       the in-memory server writes rendered CR LF follow CR LF (chunk = 0: one Write; else in pieces
+       of [chunk] bytes), where follow = render (follow_msg serial), a short ordinary PRIVMSG;
+       obs = the first two lines the foreground handlers received, in order (each encoded as below,
+       concatenated), ["timeout"] when none arrived.  Both must be C01_ok: the long message intact
+       and the follow-up intact, in that order.  The model's prediction for this kind is computed
+       with [parse] on the un-trimmed bytes: recv_one (wire m) = parse (render m) by C01_recv, and
+       LineLib.trim (two list reversals) is quadratic once extracted.
    obs    = ["nil"] | ["panic"] | ["timeout"]
           | "line" :: tags("nil"|"map") :: dec n :: (k :: v){n, sorted by key}
             :: Nick :: Ident :: Host :: Src :: Cmd :: Raw :: dec nargs :: arg{nargs}
@@ -120,8 +128,9 @@ Fixpoint take_pairs (n : nat) (l : list bytes) : option (tagmap * list bytes) :=
 Definition dec_res_bytes (st v : bytes) : res bytes := if beq st tag_ok then Ok v else Panic.
 Definition dec_res_bool (st v : bytes) : res bool := if beq st tag_ok then Ok (to_bool v) else Panic.
 
-(* (line, Text, Target, Public) out of an observation *)
-Definition decode_obs (o : list bytes) : option (line * res bytes * res bytes * res bool) :=
+(* (line, Text, Target, Public) out of the front of an observation, and what follows it *)
+Definition decode_line (o : list bytes)
+  : option ((line * res bytes * res bytes * res bool) * list bytes) :=
   match o with
   | st :: tf :: nt :: o1 =>
       if beq st t_line then
@@ -129,12 +138,12 @@ Definition decode_obs (o : list bytes) : option (line * res bytes * res bytes * 
         | Some (m, nick :: ident :: host :: src :: cmd :: raw :: na :: o2) =>
             let n := nat_of_field na in
             match skipn n o2 with
-            | [s1; txt; s2; tgt; s3; pub] =>
+            | s1 :: txt :: s2 :: tgt :: s3 :: pub :: rest =>
                 if Nat.eqb (length (firstn n o2)) n then
-                  Some ({| l_tags := if beq tf t_map then Some m else None;
-                           l_nick := nick; l_ident := ident; l_host := host; l_src := src;
-                           l_cmd := cmd; l_raw := raw; l_args := firstn n o2 |},
-                        dec_res_bytes s1 txt, dec_res_bytes s2 tgt, dec_res_bool s3 pub)
+                  Some (({| l_tags := if beq tf t_map then Some m else None;
+                            l_nick := nick; l_ident := ident; l_host := host; l_src := src;
+                            l_cmd := cmd; l_raw := raw; l_args := firstn n o2 |},
+                         dec_res_bytes s1 txt, dec_res_bytes s2 tgt, dec_res_bool s3 pub), rest)
                 else None
             | _ => None
             end
@@ -144,7 +153,34 @@ Definition decode_obs (o : list bytes) : option (line * res bytes * res bytes * 
   | _ => None
   end.
 
+Definition decode_obs (o : list bytes) : option (line * res bytes * res bytes * res bool) :=
+  match decode_line o with
+  | Some (x, []) => Some x
+  | _ => None
+  end.
+
+(* exactly two lines *)
+Definition decode_obs2 (o : list bytes)
+  : option ((line * res bytes * res bytes * res bool) * (line * res bytes * res bytes * res bool)) :=
+  match decode_line o with
+  | Some (x, o') => match decode_line o' with
+                    | Some (y, []) => Some (x, y)
+                    | _ => None
+                    end
+  | None => None
+  end.
+
+(* the short ordinary message sent after a long one: ":fnick!fuser@fhost PRIVMSG #c01follow :serial <serial>" *)
+Definition follow_msg (serial : bytes) : msg :=
+  {| mtags := None;
+     msrc := Some (SrcUser [102;110;105;99;107] [102;117;115;101;114] [102;104;111;115;116])%N;
+     verb := cmd_PRIVMSG;
+     middles := [(0%nat, [35;99;48;49;102;111;108;108;111;119]%N)];
+     trailing := Some ([115;101;114;105;97;108;32]%N ++ serial) |}.
+
 (* ---------- the entry ---------- *)
+Definition k_cbig : bytes := [99; 98; 105; 103]%N.
+
 Definition run_model (kind rendered : bytes) : list bytes :=
   if beq kind k_parse then enc_result (parse rendered)
   else if beq kind k_conn then enc_result (recv_one (rendered ++ [b_cr; b_lf]))
@@ -152,7 +188,13 @@ Definition run_model (kind rendered : bytes) : list bytes :=
 
 Definition model_C01 (i : list bytes) : list bytes :=
   match i with
-  | kind :: rendered :: _ => run_model kind rendered
+  | kind :: rendered :: rest =>
+      if beq kind k_cbig then
+        match rest with
+        | _ :: serial :: _ => enc_result (parse rendered) ++ enc_result (parse (render (follow_msg serial)))
+        | _ => [tag_bad]
+        end
+      else run_model kind rendered
   | _ => [tag_bad]
   end.
 
@@ -160,8 +202,11 @@ Definition model_C01 (i : list bytes) : list bytes :=
 Definition case_in_claim (i : list bytes) : option msg :=
   match i with
   | kind :: rendered :: rest =>
-      match decode_msg rest with
-      | Some m => if wf_msg m && beq (render m) rendered && (beq kind k_parse || beq kind k_conn)
+      let big := beq kind k_cbig in
+      match decode_msg (if big then skipn 2 rest else rest) with
+      | Some m => if wf_msg m && beq (render m) rendered
+                     && (beq kind k_parse || beq kind k_conn
+                         || (big && wf_msg (follow_msg (nth 1 rest []))))
                   then Some m else None
       | None => None
       end
@@ -177,6 +222,13 @@ Definition agree_C01 (i o : list bytes) : bool :=
 Definition oracle_C01 (i o : list bytes) : bool :=
   match case_in_claim i with
   | Some m =>
+      if beq (get i 0) k_cbig then
+        match decode_obs2 o with
+        | Some ((l, txt, tgt, pub), (l2, txt2, tgt2, pub2)) =>
+            C01_ok m l txt tgt pub && C01_ok (follow_msg (get i 3)) l2 txt2 tgt2 pub2
+        | None => false      (* fewer than two lines, or not lines: something was not delivered *)
+        end
+      else
       match decode_obs o with
       | Some (l, txt, tgt, pub) => C01_ok m l txt tgt pub
       | None => false        (* nil, panic, timeout or undecodable: the line was not delivered *)
